@@ -193,9 +193,11 @@ Done(c, p) == IF p \in {"R0ok", "T1ok"} THEN "idle" ELSE "fail"
 R0(c) ==
   /\ pc[c] \in {"R0ok", "R0fail"} /\ MuFree
   /\ IF reqs = {}
-     THEN /\ free' = Append(free, cconn[c]) /\ cconn' = [cconn EXCEPT ![c] = None]
-          /\ pc' = [pc EXCEPT ![c] = Done(c, pc[c])]
-          /\ UNCHANGED <<reqs, ckey, muHolder, chan>>
+     THEN \* nobody waits: the connection goes to the free list, still under c.mu (the "Connection released" log record
+          \* written in between is a scheduling point of the driver)
+          /\ muHolder' = c
+          /\ pc' = [pc EXCEPT ![c] = IF pc[c] = "R0ok" THEN "R1ok" ELSE "R1fail"]
+          /\ UNCHANGED <<reqs, ckey, chan, free, cconn>>
      ELSE \E k \in reqs :
           /\ reqs' = reqs \ {k}
           /\ ckey' = [ckey EXCEPT ![c] = k] /\ muHolder' = c
@@ -204,6 +206,19 @@ R0(c) ==
           /\ UNCHANGED <<cconn, free>>
   /\ Lab([a |-> "R0", c |-> c])
   /\ UNCHANGED <<cgen, cancelled, inv, total, nextConn, nextKey, ready, killed, deleted, deadSig, runDone, stuckGen, bg, w>>
+R1(c) ==
+  /\ pc[c] \in {"R1ok", "R1fail"}
+  /\ free' = Append(free, cconn[c]) /\ cconn' = [cconn EXCEPT ![c] = None] /\ muHolder' = None
+  /\ pc' = [pc EXCEPT ![c] = Done(c, IF pc[c] = "R1ok" THEN "R0ok" ELSE "R0fail")]
+  /\ Lab([a |-> "R1", c |-> c])
+  /\ UNCHANGED <<ckey, cgen, cancelled, inv, total, nextConn, reqs, chan, nextKey, ready, killed, deleted, deadSig, runDone, stuckGen, bg, w>>
+\* the environment may try to let a caller enter acquire while somebody holds c.mu: the caller blocks on the mutex and
+\* goes on by itself later; in the model this attempt changes nothing (scripts are attempted schedules)
+A0try(c) ==
+  /\ pc[c] = "A0" /\ ~MuFree
+  /\ (hist = <<>> \/ hist[Len(hist)] # [a |-> "A0", c |-> c])    \* not twice in a row (hist is outside the VIEW)
+  /\ Lab([a |-> "A0", c |-> c])
+  /\ UNCHANGED <<pc, cconn, ckey, cgen, cancelled, inv, total, free, nextConn, reqs, chan, nextKey, ready, killed, deleted, deadSig, runDone, stuckGen, muHolder, bg, w>>
 T1(c) ==   \* after r.mux.Unlock (gate PoolTransferSend); c.mu still held by release
   /\ pc[c] \in {"T1ok", "T1fail"}
   /\ chan' = IF Fix2 THEN chan ELSE [chan EXCEPT ![ckey[c]] = cconn[c]]
@@ -256,7 +271,7 @@ Next ==
   \/ \E c \in Callers : Start(c) \/ A0(c) \/ A1(c) \/ A2(c) \/ A3ctx(c) \/ A3ready(c) \/ A3dead(c)
         \/ A4pre(c) \/ A4recv(c) \/ A4stuck(c) \/ A4ctx(c)
         \/ DelKey(c, "A5", "A6") \/ DelKey(c, "A7", "A8") \/ A6(c) \/ A8(c)
-        \/ InvokeOk(c) \/ InvokeDeadErr(c) \/ R0(c) \/ T1(c) \/ Cancel(c)
+        \/ InvokeOk(c) \/ InvokeDeadErr(c) \/ R0(c) \/ R1(c) \/ T1(c) \/ Cancel(c) \/ A0try(c)
   \/ \E r \in Conns : BecomeReady(r) \/ Kill(r) \/ RunReturn(r) \/ RunDead(r) \/ BgRelease(r) \/ BgDrop(r)
 
 Spec == Init /\ [][Next]_vars
@@ -272,12 +287,12 @@ NoDeadHandOut == [][~w'.deadHandOut]_vars
 InFree(r) == \E i \in 1..Len(free) : free[i] = r
 Receivable(k) == \E c \in Callers : ckey[c] = k /\ pc[c] \in {"A4pre", "A4", "A5", "A6", "A7", "A8"}
 InChan(r) == \E k \in 1..Len(chan) : chan[k] = r /\ Receivable(k)
-HeldBy(r) == \E c \in Callers : cconn[c] = r /\ pc[c] \in {"A1", "A2", "A3", "hold", "R0ok", "R0fail", "T1ok", "T1fail"}
+HeldBy(r) == \E c \in Callers : cconn[c] = r /\ pc[c] \in {"A1", "A2", "A3", "hold", "R0ok", "R0fail", "R1ok", "R1fail", "T1ok", "T1fail"}
 Accounted(r) == InFree(r) \/ InChan(r) \/ HeldBy(r) \/ r \in bg
 Conservation == \A r \in 1..nextConn : r \notin deleted /\ r \notin runDone => Accounted(r)
 
 Waiting(c) == pc[c] = "A4" /\ ~cancelled[c] /\ chan[ckey[c]] = None /\ stuckGen = cgen[c]
-Busy == \/ \E c \in Callers : pc[c] \in {"A0","A1","A2","A3","A4pre","A5","A6","A7","A8","hold","R0ok","R0fail","T1ok","T1fail"}
+Busy == \/ \E c \in Callers : pc[c] \in {"A0","A1","A2","A3","A4pre","A5","A6","A7","A8","hold","R0ok","R0fail","R1ok","R1fail","T1ok","T1fail"}
         \/ bg # {}
 NoStrandedWaiter == \A c \in Callers : Waiting(c) /\ ~Busy => ~(free # <<>> \/ total < Max)
 
@@ -287,5 +302,10 @@ Dump == PrintT(ToJson([hist |-> hist]))
 Violated == (IF ~Limit THEN {"Limit"} ELSE {}) \cup (IF ~Exclusive THEN {"Exclusive"} ELSE {})
             \cup (IF ~Conservation THEN {"Conservation"} ELSE {}) \cup (IF ~NoStrandedWaiter THEN {"NoStrandedWaiter"} ELSE {})
             \cup (IF w.deadHandOut THEN {"NoDeadHandOut"} ELSE {})
+\* directed attempts: a caller is let into acquire exactly while another one is between the two halves of release
+DumpTry == IF Len(hist) <= 11 /\ \E c \in Callers : pc[c] \in {"R1ok", "R1fail"} /\ \E x \in Callers : pc[x] = "A0"
+           THEN PrintT(ToJson([hist |-> hist \o <<[a |-> "A0", c |-> CHOOSE x \in Callers : pc[x] = "A0"]>>,
+                               violates |-> {"attempt"}, max |-> Max]))
+           ELSE TRUE
 DumpBad == IF Violated # {} THEN PrintT(ToJson([hist |-> hist, violates |-> Violated, max |-> Max])) /\ FALSE ELSE TRUE
 =============================================================================
